@@ -425,6 +425,8 @@ func (k *karr) analyse(fn *ssa.Function, ctx int, in *space, this ssa.Value) []k
 						if es.bot {
 							continue
 						}
+					} else if k.benefit {
+						k.taintLoopExitGuard(ctx, this, es, b, ifi, si)
 					}
 				}
 				// which predecessor slot of succ is this edge
@@ -902,8 +904,15 @@ func (k *karr) call(fn *ssa.Function, ctx int, this ssa.Value, s *space, c *ssa.
 		t := k.newVar()
 		s.grow(k.nvars)
 		s.assign(t, k.G.plus(bitsL))
+		wasTainted := s.tainted(k.G.plus(bitsL))
 		k.havocFields(s)
 		s.meet(k.G.minus(linVar(t)))
+		if wasTainted {
+			// the counter was already uncertain before the call: it stays so
+			for v := range k.G.co {
+				s.markTaint(v)
+			}
+		}
 		s.forget(t)
 		k.free = append(k.free, t)
 		if sp.retIsBits && isIntType(c.Type()) {
@@ -1097,13 +1106,47 @@ func (k *karr) entryG() lin {
 // advanced by exactly one on every iteration and whose bound y is not written in the loop; on the exit edge x is taken
 // to be y+1 (resp. y), i.e. the loop is assumed to be entered at or below its bound. Returns the equality to meet with.
 func (k *karr) unitLoopExit(ctx int, this ssa.Value, b *ssa.BasicBlock, ifi *ssa.If, si int) (lin, bool) {
-	bo, ok := ifi.Cond.(*ssa.BinOp)
+	if os.Getenv("KZ_NO_A5") != "" { // self-test of the safety net only
+		return lin{}, false
+	}
+	cond := ifi.Cond
+	neg := false
+	for {
+		u, ok := cond.(*ssa.UnOp)
+		if !ok || u.Op != token.NOT {
+			break
+		}
+		cond = u.X
+		neg = !neg
+	}
+	bo, ok := cond.(*ssa.BinOp)
 	if !ok || !isIntType(bo.X.Type()) {
 		return lin{}, false
 	}
+	op := bo.Op
+	if neg {
+		op = negateOp(op)
+	}
+	// which successor stays in the loop: the condition may be compiled with its branches swapped (`for !(a > b)`)
+	bodyIdx := -1
+	for k, sc := range b.Succs {
+		if reach(sc, nil, nil)[b] {
+			if bodyIdx >= 0 {
+				return lin{}, false // both successors stay in the loop
+			}
+			bodyIdx = k
+		}
+	}
+	if bodyIdx < 0 || si == bodyIdx {
+		return lin{}, false
+	}
+	if bodyIdx == 1 {
+		op = negateOp(op)
+	}
+	// the loop continues while "x <= y" (or "x < y"), written in any of its spellings
 	x, y := bo.X, bo.Y
 	strict := false
-	switch bo.Op {
+	switch op {
 	case token.LEQ:
 	case token.LSS:
 		strict = true
@@ -1115,10 +1158,7 @@ func (k *karr) unitLoopExit(ctx int, this ssa.Value, b *ssa.BasicBlock, ifi *ssa
 	default:
 		return lin{}, false
 	}
-	if si != 1 {
-		return lin{}, false
-	}
-	body, exit := b.Succs[0], b.Succs[1]
+	body, exit := b.Succs[bodyIdx], b.Succs[1-bodyIdx]
 	// loop membership
 	fromBody := reach(body, nil, nil)
 	if !fromBody[b] || reach(exit, nil, nil)[b] && false {
@@ -1279,4 +1319,42 @@ func (k *karr) linStringV(e lin) string {
 		out += fmt.Sprintf(" %s*%s", e.co[v].String(), k.varName(v))
 	}
 	return out + " + " + e.c.String()
+}
+
+// taintLoopExitGuard (benefit mode only): the edge leaves a loop under an ordering guard that was not summarised (not a
+// unit-step counting loop). Whatever the proof needs from that guard is missing, so a failure that involves the compared
+// quantities is not definite: they are marked as depending on an unknown.
+func (k *karr) taintLoopExitGuard(ctx int, this ssa.Value, es *space, b *ssa.BasicBlock, ifi *ssa.If, si int) {
+	cond := ifi.Cond
+	for {
+		u, ok := cond.(*ssa.UnOp)
+		if !ok || u.Op != token.NOT {
+			break
+		}
+		cond = u.X
+	}
+	bo, ok := cond.(*ssa.BinOp)
+	if !ok || !isIntType(bo.X.Type()) {
+		return
+	}
+	switch bo.Op {
+	case token.LSS, token.LEQ, token.GTR, token.GEQ:
+	default:
+		return
+	}
+	// is this a loop exit: b is in a cycle and the successor taken is not
+	succ := b.Succs[si]
+	if !reach(b.Succs[1-si], nil, nil)[b] || reach(succ, nil, nil)[b] {
+		return
+	}
+	for _, v := range []ssa.Value{bo.X, bo.Y} {
+		if x, ok := k.vals[kvalKey{ctx, v, -1}]; ok {
+			es.markTaint(x)
+		}
+		if u, ok := v.(*ssa.UnOp); ok && u.Op == token.MUL {
+			if f, ok := k.isThisField(this, u.X); ok {
+				es.markTaint(k.fieldVar[f])
+			}
+		}
+	}
 }
